@@ -305,7 +305,9 @@ pub fn gen_chain<R: Rng>(rng: &mut R) -> Case {
     for _ in 0..n {
         let kt = mc::rand_kt(rng);
         let mut cfg = mc::rand_cfg(rng, kt, 3000);
-        cfg.max_step_size = [0.001, 0.01, 0.1, 0.5, 1.][rng.gen_range(0, 5)];
+        // steps above 1 are accepted by the CLI and the builder: a proposal may then overshoot the
+        // range by several of its widths, and must still come back inside it
+        cfg.max_step_size = [0.001, 0.01, 0.1, 0.5, 1., 3., 8., 50.][rng.gen_range(0, 8)];
         stages.push(cfg);
     }
     Case::Chain { group: groups::NAMES[rng.gen_range(0, 7)].to_string(), shape, lj, stages, via_clone: rng.gen_bool(0.5) }
@@ -387,7 +389,7 @@ pub fn check_user_group(seed: u64, st: &mut Stats) {
 }
 
 pub fn run(ctx: &Ctx) {
-    ctx.set_rule("chains of 1..4 optimisation stages (temperatures 0..1e6, steps 1..3000 with one or many loops, max_step 0.001..1, convergence on/off, directly and via clone()) on hard and LJ states of all 7 groups x polygons/circle/trimers; the result of each stage is serialised, re-read and fed to the next. Checked per stage with ranges re-derived from the stage's own start (cell length in [0.01, start], ratio in [0.1, start], oblique angle in [pi/6, pi/2] else bit-identical, x,y in [-1/2,1/2], orientation in [0,2pi]): every state the optimiser evaluates (Spy), the returned state, unchanged group/family labels, number of free parameters of the family, a finite defined score of the re-read result, no panic. Plus user-defined groups (any name, table names included; any of the four families; p1 or p2 operations): the state's cell and labels are of the family the group declares, the family's number of free parameters, and the parameters the family fixes are bit-identical after an optimisation. Plus validity of the from_group state for every group x shape (polygons 3..64, circle, trimers with finite positive area) x potential. Non-trivial = chains of >= 2 stages or with a parameter clamped at a bound, and every initial-state case; distinct by case");
+    ctx.set_rule("chains of 1..4 optimisation stages (temperatures 0..1e6, steps 1..3000 with one or many loops, max_step 0.001..50 (above 1: proposals overshoot the range by several widths), convergence on/off, directly and via clone()) on hard and LJ states of all 7 groups x polygons/circle/trimers; the result of each stage is serialised, re-read and fed to the next. Checked per stage with ranges re-derived from the stage's own start (cell length in [0.01, start], ratio in [0.1, start], oblique angle in [pi/6, pi/2] else bit-identical, x,y in [-1/2,1/2], orientation in [0,2pi]): every state the optimiser evaluates (Spy), the returned state, unchanged group/family labels, number of free parameters of the family, a finite defined score of the re-read result, no panic. Plus user-defined groups (any name, table names included; any of the four families; p1 or p2 operations): the state's cell and labels are of the family the group declares, the family's number of free parameters, and the parameters the family fixes are bit-identical after an optimisation. Plus validity of the from_group state for every group x shape (polygons 3..64, circle, trimers with finite positive area) x potential. Non-trivial = chains of >= 2 stages or with a parameter clamped at a bound, and every initial-state case; distinct by case");
     let n = ctx.tier.pick(24u64, 900u64);
     let prev = std::panic::take_hook();
     std::panic::set_hook(Box::new(|_| {}));
